@@ -447,6 +447,7 @@ func C08(c *Ctx) {
 	}
 	c.c08NilCallee()
 	c.c08BrokerIndices()
+	c.c08ParsedNumbers()
 
 	// R08.5
 	if ap := c.fn("R08.5", "internal/executor.(*SerialExecutor).ApplyTransactions"); ap != nil && len(ap.Params) >= 2 {
@@ -1399,4 +1400,141 @@ func (c *Ctx) c08BrokerIndices() {
 		}
 	}
 	r.Floor("R08.9", "constant indices into split lists in InterBroker entries", n, 3)
+}
+
+// c08ParsedNumbers (R08.4): big.Int.SetString returns (nil, false) for text that is not a number; the amount of a
+// transfer is such text chosen by the sender. In the executor a value that may be that nil (it reaches the use
+// without crossing the parse's ok edge or a nil test) is never the receiver of a big.Int method, and a function
+// it is handed to dereferences the parameter only behind its own nil test.
+func (c *Ctx) c08ParsedNumbers() {
+	r := c.R
+	isBigMethod := func(call ssa.CallInstruction) bool {
+		return strings.HasPrefix(core.CalleeName(call), "(*math/big.Int).")
+	}
+	// derefs of parameter p in g that are not behind p != nil
+	var unguardedDeref func(g *ssa.Function, pi, d int) string
+	unguardedDeref = func(g *ssa.Function, pi, d int) string {
+		if g == nil || len(g.Blocks) == 0 || pi >= len(g.Params) || d > 2 {
+			return ""
+		}
+		p := g.Params[pi]
+		nonNil := condEdges(g, func(f core.Fact, ifi *ssa.If) (bool, int) {
+			if f.Kind == core.FNil && core.Strip(f.Subject) == ssa.Value(p) {
+				return true, 1 - holdsEdge(f)
+			}
+			return false, 0
+		})
+		rs := core.Reach([]core.Point{core.EntryOf(g)}, nil, core.CutOf(nonNil))
+		for _, call := range core.Calls(g) {
+			if !rs.Has(call) {
+				continue
+			}
+			args := call.Common().Args
+			if isBigMethod(call) && len(args) > 0 {
+				for ai, a := range args {
+					// receiver, or an operand the method reads (x.Cmp(y), z.Add(x, y))
+					if core.Strip(a) == ssa.Value(p) && (ai == 0 || true) {
+						return shortFn(g) + " calls " + core.CalleeName(call) + " on it at " + c.P.Pos(call.Pos()) + " without a nil test"
+					}
+				}
+				continue
+			}
+			if h := core.StaticCallee(call); h != nil && c.P.InModule(h) {
+				for ai, a := range args {
+					if core.Strip(a) == ssa.Value(p) {
+						if w := unguardedDeref(h, ai, d+1); w != "" {
+							return w
+						}
+					}
+				}
+			}
+		}
+		return ""
+	}
+	n := 0
+	for _, fn := range c.P.ModuleFuncs(true) {
+		if core.PkgOf(fn) != "internal/executor" {
+			continue
+		}
+		for _, pc := range core.Calls(fn) {
+			if core.CalleeName(pc) != "(*math/big.Int).SetString" {
+				continue
+			}
+			parse, ok := pc.(*ssa.Call)
+			if !ok {
+				continue
+			}
+			n++
+			var val, okv ssa.Value
+			for _, ref := range *parse.Referrers() {
+				if ex, isEx := ref.(*ssa.Extract); isEx {
+					if ex.Index == 0 {
+						val = ex
+					} else {
+						okv = ex
+					}
+				}
+			}
+			key := shortFn(fn) + ": parsed number used only when the parse succeeded"
+			if val == nil {
+				r.OK("R08.4", key, c.P.Pos(parse.Pos()), "the parsed value is not used")
+				continue
+			}
+			protect := condEdges(fn, func(f core.Fact, ifi *ssa.If) (bool, int) {
+				if f.Kind == core.FBool && okv != nil && core.Strip(f.Subject) == okv {
+					return true, holdsEdge(f)
+				}
+				if f.Kind == core.FNil {
+					for _, o := range core.RetOrigins(f.Subject) {
+						if o.V == val {
+							return true, 1 - holdsEdge(f)
+						}
+					}
+				}
+				return false, 0
+			})
+			cut := core.CutOf(protect)
+			rs := core.Reach([]core.Point{core.After(parse)}, nil, cut)
+			carries := func(x ssa.Value) bool {
+				for _, o := range core.RetOrigins(x) {
+					if o.V != val {
+						continue
+					}
+					if o.Via == nil {
+						return true
+					}
+					if len(o.Via.Instrs) == 0 || !rs.Has(o.Via.Instrs[len(o.Via.Instrs)-1]) {
+						continue
+					}
+					for i, sb := range o.Via.Succs {
+						if sb == o.To && !cut(o.Via, i) {
+							return true
+						}
+					}
+				}
+				return false
+			}
+			bad := ""
+			for _, call := range core.Calls(fn) {
+				if call == ssa.CallInstruction(parse) || !rs.Has(call) {
+					continue
+				}
+				for ai, a := range call.Common().Args {
+					if !carries(a) {
+						continue
+					}
+					if isBigMethod(call) {
+						bad = core.CalleeName(call) + " at " + c.P.Pos(call.Pos()) + " is applied to it"
+					} else if h := core.StaticCallee(call); h != nil && c.P.InModule(h) {
+						if w := unguardedDeref(h, ai, 0); w != "" {
+							bad = "it is handed to " + shortFn(h) + " at " + c.P.Pos(call.Pos()) + "; " + w
+						}
+					}
+				}
+			}
+			r.Check(bad == "", "R08.4", key, c.P.Pos(parse.Pos()), "the value is used behind the ok result / a nil test, or only by code that tests it for nil",
+				"the result of big.Int.SetString on transaction data is nil when the text is not a number (\"1e3\", \"0x10\", empty); here it can reach a use without crossing the ok result or a nil test: "+bad+": the nil dereference happens outside any recover and stops the executor on every node")
+		}
+	}
+	r.Floor("R08.4", "numbers parsed from transaction data in the executor", n, 1)
 }
